@@ -207,6 +207,27 @@ func runC13(c *Ctx) {
 			okPort = true
 		}
 		if !okPort {
+			// the two outcomes recorded in an error variable that is tested afterwards: decide per path
+			isOK := func(ft fact) bool {
+				return nilFact(ft, func(v ssa.Value) bool {
+					ex, ok := v.(*ssa.Extract)
+					if !ok {
+						return false
+					}
+					cl, ok := origin(ex.Tuple).(*ssa.Call)
+					return ok && cl.Call.StaticCallee() == assignPort && ex.Index == 1
+				}, true) || boolFact(ft, func(v ssa.Value) bool {
+					ex, ok := v.(*ssa.Extract)
+					if !ok || ex.Index != 1 {
+						return false
+					}
+					cl, ok := origin(ex.Tuple).(*ssa.Call)
+					return ok && callName(cl) == "(*vnet.udpConnMap).find"
+				}, false)
+			}
+			okPort = hasFactOnPaths(in, isOK)
+		}
+		if !okPort {
 			o.Fail(in.Pos(), "a socket can be bound without a successful ephemeral-port search or a negative conflict lookup")
 		}
 	}
@@ -842,9 +863,25 @@ func runC01(c *Ctx) {
 		})
 	}
 	cg := p.CG()
+	// the forwarding goroutine: the function literal or the method started by Start's go statement; a method
+	// must have no other caller
+	var loopFn *ssa.Function
+	instrsOfU(start, func(in ssa.Instruction) {
+		if g, ok := in.(*ssa.Go); ok {
+			if sc := g.Call.StaticCallee(); sc != nil && sc.Parent() == nil && inModule(sc) {
+				loopFn = sc
+				for _, e := range cg.In[sc] {
+					if e.Site != ssa.Instruction(g) {
+						o.Fail(e.Site.Pos(), "the forwarding loop %s is also run from %s", fname(sc), fname(e.From))
+					}
+				}
+			}
+		}
+	})
 	for _, e := range cg.In[pc] {
 		o.Site(e.Site.Pos(), "processChunks called from %s", fname(e.From))
-		if e.From.Parent() != start || e.Kind != "static" {
+		inLoopFn := loopFn != nil && (e.From == loopFn || isIn(e.From, loopFn))
+		if (e.From.Parent() != start && !inLoopFn) || e.Kind != "static" {
 			o.Fail(e.Site.Pos(), "processChunks is also run from %s", fname(e.From))
 		}
 	}
